@@ -196,6 +196,8 @@ Leaves == <<
   [name |-> "e",   decl |-> "Enum",   en |-> "Ea"],
   [name |-> "h",   decl |-> "Enum",   en |-> "Eb"],
   [name |-> "s",   decl |-> "Struct", en |-> ""],
+  \* an inline bits field: its type is the nested type `Flag' -- opaque like any structure, NOT the prelude's Flag
+  [name |-> "s.flag", decl |-> "Struct", en |-> ""],
   [name |-> "r",   decl |-> "Array",  en |-> ""],
   [name |-> "s.x", decl |-> "UInt",   en |-> ""],
   [name |-> "vi",  decl |-> "VInt",   en |-> ""],
